@@ -144,7 +144,7 @@ pub trait CholeskyDecomposableMatrix<T: RealNumber>: BaseMatrix<T> {
             }
             d = self.get(j, j) - d;
 
-            if d < T::zero() {
+            if !(d > T::zero()) {
                 return Err(Failed::because(
                     FailedError::DecompositionFailed,
                     "The matrix is not positive definite.",
